@@ -1,7 +1,7 @@
 //! C01 leg `dyn`: every enumerated (column type, value) through the dynamic value type `CqlValue`.
 //!
 //! Per case (simplest first):
-//!   1. reference: `cqlref::value::encode` -> cell; `decode(encode) == canon` (reference self-consistency, exit 2 if not);
+//!   1. reference: `crate::refvalue::encode` -> cell; `decode(encode) == canon` (reference self-consistency, exit 2 if not);
 //!   2. driver bytes through `SerializedValues::add_value` and through `SerializeValue::serialize` + `CellWriter`
 //!      (also wrapped in `Option::Some` / `MaybeUnset::Set`; null via `Option::None`, not-set via `Unset` and
 //!      `MaybeUnset::Unset`) must equal the reference cell incl. the 4-byte length / -1 / -2;
@@ -16,7 +16,7 @@
 use crate::dynconv::*;
 use crate::types;
 use crate::values::{self, Accept};
-use cqlref::value::{self as refv, Cell, EncodeOpts, Type, Value};
+use crate::refvalue::{self as refv, Cell, EncodeOpts, Type, Value};
 use scylla_cql_core::value::{CqlValue, MaybeUnset, Unset};
 use serde_json::json;
 use std::sync::atomic::{AtomicU64, Ordering};
@@ -219,7 +219,7 @@ enum Work {
 pub fn run(r: &Report) {
     let thorough = r.tier().is_thorough();
     let st = Stats::default();
-    let n_ref = refv::self_test().unwrap_or_else(|e| vcore::machinery_error(&format!("cqlref::value fails its pinned vectors: {e}")));
+    let n_ref = refv::self_test().unwrap_or_else(|e| vcore::machinery_error(&format!("crate::refvalue fails its pinned vectors: {e}")));
     r.note("reference_pinned_vectors_checked", json!(n_ref));
 
     let int_text = vec![types::nat(refv::Native::Int), types::nat(refv::Native::Text)];
@@ -296,7 +296,7 @@ pub fn run(r: &Report) {
     r.counters.add("short_udt_alternative_encodings_decoded", st.alt_decodes.load(Ordering::Relaxed));
     r.note("max_type_depth", json!(max_depth.load(Ordering::Relaxed)));
     r.set_rule(
-        "E-ENUM, dynamic value type. Column types: 20 natives; depth 1 = list/set/vector(dim 0..3) of every native, map of every native pair, tuple+UDT arity 0,1,2 (all), 3 (all triples over int,text,boolean,varint,uuid,duration + (n,int,text)); depth 2 = list/set/vector/map/tuple/UDT constructors over every depth-1 type with partner types {int,text} (quick; vector dim 1,2) or all natives (thorough; dim 0..3); thorough adds depth 3 over the class representatives int/text. Values per type: the listed boundary alphabet (numeric MIN/-1/0/1/MAX, NaN payloads, -0.0, multi-byte UTF-8, strings/blobs of 0/1/127/128/16386 bytes, durations at every vint length 1..9, non-normalised and zero-length varints, decimals with negative scale), every container shape (empty, each singleton, pair, triple; every tuple/UDT position x every value, every null pattern, every shorter tuple, every UDT omission pattern, reversed UDT naming order), null, not-set, zero-length empty. Oracle: cqlref::value (bytes equal incl. length prefix; decode == canonical form). distinct_nontrivial = accepted cases of composite types with a non-null, non-empty value.",
+        "E-ENUM, dynamic value type. Column types: 20 natives; depth 1 = list/set/vector(dim 0..3) of every native, map of every native pair, tuple+UDT arity 0,1,2 (all), 3 (all triples over int,text,boolean,varint,uuid,duration + (n,int,text)); depth 2 = list/set/vector/map/tuple/UDT constructors over every depth-1 type with partner types {int,text} (quick; vector dim 1,2) or all natives (thorough; dim 0..3); thorough adds depth 3 over the class representatives int/text. Values per type: the listed boundary alphabet (numeric MIN/-1/0/1/MAX, NaN payloads, -0.0, multi-byte UTF-8, strings/blobs of 0/1/127/128/16386 bytes, durations at every vint length 1..9, non-normalised and zero-length varints, decimals with negative scale), every container shape (empty, each singleton, pair, triple; every tuple/UDT position x every value, every null pattern, every shorter tuple, every UDT omission pattern, reversed UDT naming order), null, not-set, zero-length empty. Oracle: crate::refvalue (bytes equal incl. length prefix; decode == canonical form). distinct_nontrivial = accepted cases of composite types with a non-null, non-empty value.",
     );
     r.set_exhaustive(true);
     r.assume("vector element widths follow Cassandra 5.0's fixed-length table (boolean 1, int/float 4, bigint/double/timestamp 8, uuid/timeuuid 16; vector of fixed = width x dim); everything else is unsigned-vint length prefixed");
